@@ -963,3 +963,59 @@ Proof.
     rewrite Ef, Et, count_resp_snoc, Z.add_assoc.
     apply exact_step; [pose proof (count_resp_nonneg s evs2); lia|exact IH|exact H2].
 Qed.
+
+(* ---------------- exactness on the timed machine ---------------- *)
+
+Lemma tfold_is_gfold : forall c evs t acc,
+  fold_left (gstep_acc c) (tg_from c t evs) (tStore t, acc) =
+  (tStore (fst (fold_left (tstep_acc c) evs (t, acc))),
+   snd (fold_left (tstep_acc c) evs (t, acc))).
+Proof.
+  intros c evs. induction evs as [|e r IH]; intros t acc.
+  - reflexivity.
+  - cbn [tg_from fold_left]. rewrite fold_left_app, tstep_sim.
+    unfold tstep_acc at 2 4. cbn [fst snd].
+    destruct (tstep c t e) as [t' o]. cbn [fst snd]. apply IH.
+Qed.
+
+Lemma count_resp_app : forall s a b,
+  count_resp s (a ++ b) = count_resp s a + count_resp s b.
+Proof. intros. unfold count_resp. rewrite filter_app, app_length, Nat2Z.inj_add. reflexivity. Qed.
+
+Lemma count_resp_drops : forall s (l : list (Z * Z)),
+  count_resp s (map (fun d => GDrop (snd d)) l) = 0.
+Proof. intros s l. unfold count_resp. induction l as [|d l IH]; simpl; [reflexivity|exact IH]. Qed.
+
+Lemma count_resp_tg : forall c s evs t,
+  count_resp s (tg_from c t evs) = tcount_resp s evs.
+Proof.
+  intros c s evs. induction evs as [|e r IH]; intro t; [reflexivity|].
+  cbn [tg_from]. rewrite count_resp_app, IH.
+  unfold tcount_resp. cbn [filter].
+  destruct e as [s0 n status|dt|]; cbn [t_to_g t_resp_of].
+  - unfold count_resp. cbn [filter g_resp_of]. destruct (s0 =? s); cbn [length]; lia.
+  - reflexivity.
+  - rewrite count_resp_drops. reflexivity.
+Qed.
+
+Lemma timed_exact_run : forall c t0 evs1 evs2 s status,
+  let t1 := fst (trun c t0 evs1) in
+  in_ranges (pRanges c) status = true ->
+  (t_vis t1 s = false \/ get Z.eqb (tStore t1) s = None) ->
+  forallb (calm c s) (tg_from c (fst (tstep c t1 (TResp s true status))) evs2) = true ->
+  seg_retries s (snd (trun c t0 (evs1 ++ TResp s true status :: evs2))) =
+    Z.min (1 + tcount_resp s evs2) (Z.max 0 (pAttempts c)).
+Proof.
+  intros c t0 evs1 evs2 s status t1 Hin Hf Hc.
+  destruct (trun_is_grun c t0 evs1) as [g1 [Hg _]].
+  assert (Hs : fst (grun c g1) = tStore t1) by (rewrite Hg; reflexivity).
+  rewrite <- Hs in Hf.
+  pose proof (exact_run c g1 _ s status (t_vis t1 s) Hin Hf Hc) as [E _].
+  cbv zeta in E. rewrite count_resp_tg in E. rewrite <- E. f_equal. f_equal.
+  change (GResp s true status (t_vis t1 s) ::
+          tg_from c (fst (tstep c t1 (TResp s true status))) evs2)
+    with (tg_from c t1 (TResp s true status :: evs2)).
+  rewrite grun_app, Hg. unfold trun at 1. rewrite fold_left_app. fold (trun c t0 evs1).
+  rewrite (surjective_pairing (trun c t0 evs1)). fold t1.
+  rewrite tfold_is_gfold. reflexivity.
+Qed.
